@@ -1012,7 +1012,65 @@ def fwdlate(rng):
     return {"cfg": _cfg(rng, 3), "ops": ops}
 
 
-FAMILIES = {"fwdlate": fwdlate, "asyncsign": asyncsign, "skim": skim, "batchopen": batchopen, "discomplete": discomplete, "monbcast": monbcast, "staletwo": staletwo, "bigclaim": bigclaim, "dustclose": dustclose, "slots": slots, "asynccross": asynccross, "blockedjump": blockedjump, "feecross": feecross, "opendisc": opendisc, "chainsettle": chainsettle, "crosslimit": crosslimit, "evhold": evhold, "failwin": failwin, "fanin": fanin, "inflight": inflight, "holdcell": holdcell, "stalehold": stalehold}
+def tampercs(rng):
+    """A forged commitment_signed (C05: a revocation is released only for a FULLY signed newer commitment): the
+    commitment it signs carries k >= 1 HTLC outputs -- some committed earlier, some new, both directions --; the
+    forgery hits the commitment signature, exactly one of the HTLC signatures (every position), all of them, or
+    drops one.  The receiver must refuse it: close the channel, store nothing, revoke nothing."""
+    a = rng.choice([0, 1])
+    b = 1 - a
+    value = rng.choice([100000, 1000000])
+    cfg = {"nodes": 2, "chan_type": rng.choice(TYPES), "value": value, "push": value * 500, "feerate": rng.choice([253, 253, 1000])}
+    ops, npay = [], 0
+    # HTLCs committed before the forged signature (they stay outputs of the forged commitment)
+    for _ in range(rng.choice([0, 1, 1, 2])):
+        s_, d_ = rng.choice([(a, b), (b, a)])
+        ops.append({"op": "send", "from": s_, "to": d_, "amt": rng.choice(["big", "justabove", "big"])})
+        npay += 1
+    ops.append({"op": "deliver_all"})
+    # new ones, signed for the first time by the forged commitment_signed (sent by a)
+    for _ in range(rng.choice([1, 1, 2, 3])):
+        ops.append({"op": "send", "from": a, "to": b, "amt": rng.choice(["big", "justabove", "big", "dust"])})
+        npay += 1
+    if rng.random() < 0.3 and npay:
+        ops.append({"op": rng.choice(["claim", "fail"]), "pay": 0})
+    ops.append({"op": "tamper_cs", "from": a, "to": b, "mode": rng.choice([0, 1, 1, 1, 1, 2, 3]), "idx": rng.randrange(0, 6)})
+    ops += _deliveries(rng, [(0, 1), (1, 0)], rng.randrange(0, 5))
+    ops.append({"op": "deliver_all"})
+    for k in range(npay):
+        ops += [{"op": "claim" if rng.random() < 0.5 else "fail", "pay": k}, {"op": "deliver_all"}]
+    ops += [{"op": "deliver_all"}, {"op": "proj", "final": True}]
+    return {"cfg": cfg, "ops": ops}
+
+
+def windowlimit(rng):
+    """HTLCs whose amounts sit at and between the two trimming thresholds of a commitment (an output on one side's
+    commitment, dust on the other's) are pending, irrevocably, when a node sends exactly its reported limit on a
+    quiet channel (C01: the limits are exact -- accepted by the sender AND by the peer; every pending HTLC is
+    represented exactly once, as an output or as dust)."""
+    value = rng.choice([100000, 1000000])
+    cfg = {"nodes": 2, "chan_type": rng.choice(["static", "static", "anchors", "zerofee"]), "value": value,
+           "push": rng.choice([0, value * 100, value * 500, value * 900]), "feerate": rng.choice([253, 253, 1000, 2500])}
+    ops, npay = [], 0
+    x = rng.choice([0, 0, 1])
+    for _ in range(rng.choice([1, 1, 2, 3, 5, 9])):
+        s_ = x if rng.random() < 0.8 else 1 - x
+        ops.append({"op": "send", "from": s_, "to": 1 - s_, "amt": rng.choice(["window", "window", "window", "thr-offered", "thr-received", "dust-edge"])})
+        npay += 1
+        if rng.random() < 0.3:
+            ops.append({"op": "deliver_all"})
+    ops.append({"op": "deliver_all"})
+    first = npay
+    for s_ in rng.choice([[x], [x], [1 - x], [x, 1 - x], [1 - x, x]]):
+        ops += [{"op": "send", "from": s_, "to": 1 - s_, "amt": rng.choice(["limit", "limit", "limit", "half"])}, {"op": "deliver_all"}]
+        npay += 1
+    for k in list(range(first, npay)) + list(range(first)):
+        ops += [{"op": "claim" if rng.random() < 0.7 else "fail", "pay": k}, {"op": "deliver_all"}]
+    ops += [{"op": "deliver_all"}, {"op": "proj", "final": True}]
+    return {"cfg": cfg, "ops": ops}
+
+
+FAMILIES = {"windowlimit": windowlimit, "tampercs": tampercs, "fwdlate": fwdlate, "asyncsign": asyncsign, "skim": skim, "batchopen": batchopen, "discomplete": discomplete, "monbcast": monbcast, "staletwo": staletwo, "bigclaim": bigclaim, "dustclose": dustclose, "slots": slots, "asynccross": asynccross, "blockedjump": blockedjump, "feecross": feecross, "opendisc": opendisc, "chainsettle": chainsettle, "crosslimit": crosslimit, "evhold": evhold, "failwin": failwin, "fanin": fanin, "inflight": inflight, "holdcell": holdcell, "stalehold": stalehold}
 
 
 def make(rng, family, count):
